@@ -8,7 +8,7 @@ Property theorems only (lemmas: `SqiProofs/Curve*.lean`). Setting: any field `F`
 Curve constants are projective too: `(A : C)` with `A = a·C`, `C ≠ 0`; `IsA24 a U V` = "`(U : V) = (a+2 : 4)`".
 
 The formulas (`xDBL`, `xDBL_A24`, `xDBL_A24_normalized`, `xADD`, `xDBLADD`, `xDBLADD_normalized`, `ec_j_inv`, `DBL`,
-`ADD`, `jac_to_xz`, `jac_neg`, `ec_iso_eval`, `AC_to_A24`, `A24_to_AC`, `ec_curve_normalize_A24`, `swap_points`,
+`ADD` (all branches), `jac_to_xz`, `jac_neg`, `ec_iso_eval`, `AC_to_A24`, `A24_to_AC`, `ec_curve_normalize_A24`, `swap_points`,
 `select_point`, …) are the definitions *generated from the C text on every run* (`SqiGen.Ec`); the ladders are the hand
 models of `SqiModel.Ladder` (run against the C functions by the correspondence harness), which call the generated
 formulas. Every theorem is for **all** points (incl. `∞` and 2-torsion where stated), all representatives, and bit
@@ -222,19 +222,34 @@ theorem DBL_correct {a : F} (h2 : (2 : F) ≠ 0) (AC : EcCurve F) (hA : AC.A = a
     (Pt : (mont a).Point) (J : JacPoint F) (hJ : IsJac Pt J) : IsJac (Pt + Pt) (DBL J AC) :=
   DBL_ok h2 AC hA Pt J hJ
 
-/-- FULL STATEMENT (not proved): for all points `P, Q` given in the form the code itself recognises for `∞`
-(`IsJacC`: `X = 0 ∧ Z = 0 ∧ Y ≠ 0`, as produced by `jac_init`), `IsJac (P + Q) (ADD J1 J2 AC)`.
-PROVED PART: the generic branch — affine points with `x₁ ≠ x₂` in any Jacobian representatives; the proof shows the
-four guards (`is_jac_equal`, equality with the negative, the two `∞` tests) are false there and the formula gives
-both coordinates of Mathlib's sum. MISSING: the four special branches (`P = Q` → `DBL`, `P = -Q` → `jac_init`,
-`P = ∞`, `Q = ∞`); they are exercised by the correspondence harness and compared with the affine oracle.
-Note that the statement is *false* for `∞` given as `(X : Y : 0)`, `X ≠ 0` — which is what `DBL` returns on a point
-of order 2 (`DBL_correct`): see `notes/C08.md`, finding "Jacobian ADD after DBL of a 2-torsion point". -/
-theorem ADD_correct_partial {a : F} (AC : EcCurve F) (hA : AC.A = a)
+/-- `DBL` preserves the *canonical* representation (`IsJacC`: `∞ = (0 : Y≠0 : 0)`, the only form `DBL`/`ADD` test
+for) except when it doubles a point of order 2 (then it returns `(α² : -α³ : 0)`: known finding
+"Jacobian:ADD-after-DBL-of-2-torsion"). -/
+theorem DBL_canonical {a : F} (h2 : (2 : F) ≠ 0) (AC : EcCurve F) (hA : AC.A = a)
+    (Pt : (mont a).Point) (J : JacPoint F) (hJ : IsJacC Pt J) (hns : Pt = 0 ∨ Pt + Pt ≠ 0) :
+    IsJacC (Pt + Pt) (DBL J AC) :=
+  DBL_okC h2 AC hA Pt J hJ hns
+
+/-- **`ADD` on all inputs**, every branch (`P = Q` → `DBL`, `P = -Q` → `jac_init`, `P = ∞`, `Q = ∞`, generic): for
+inputs in canonical form the result represents `P + Q`, and it is again in canonical form — in particular
+`P + (-P)` is `(0 : 1 : 0)`, so later additions/doublings recognise it — except when the `P = Q` branch doubles a
+point of order 2. (With the `P = -Q` branch removed the second part is false: the generic formula returns
+`(λ² : -λ³ : 0)`.) -/
+theorem ADD_correct {a : F} (h2 : (2 : F) ≠ 0) (AC : EcCurve F) (hA : AC.A = a)
+    (Pt Qt : (mont a).Point) (J1 J2 : JacPoint F) (h1 : IsJacC Pt J1) (h2' : IsJacC Qt J2) :
+    IsJac (Pt + Qt) (ADD J1 J2 AC) ∧
+    ((¬ (Pt = Qt ∧ Pt ≠ 0 ∧ Pt + Pt = 0)) → IsJacC (Pt + Qt) (ADD J1 J2 AC)) :=
+  ADD_ok h2 AC hA Pt Qt J1 J2 h1 h2'
+
+/-- the generic branch also for non-canonical representatives of affine points -/
+theorem ADD_correct_generic {a : F} (AC : EcCurve F) (hA : AC.A = a)
     {x1 y1 x2 y2 : F} (h1 : (mont a).Nonsingular x1 y1) (h2 : (mont a).Nonsingular x2 y2) (hx : x1 ≠ x2)
     (J1 J2 : JacPoint F) (hJ1 : IsJac (Affine.Point.some x1 y1 h1) J1) (hJ2 : IsJac (Affine.Point.some x2 y2 h2) J2) :
     IsJac (Affine.Point.some x1 y1 h1 + Affine.Point.some x2 y2 h2) (ADD J1 J2 AC) :=
   ADD_generic_ok AC hA h1 h2 hx J1 J2 hJ1 hJ2
+
+/-- non-vacuity: `jac_init` is a canonical `∞`, and `(2·9, 4·27, 3)` a canonical representative of `P₀ = (2,4)` -/
+example : IsJacC (0 : (mont (3 / 2 : ℚ)).Point) (jac_init : JacPoint ℚ) := jac_init_isJacC
 
 /-- `ec_j_inv` returns Mathlib's `WeierstrassCurve.j` of the Montgomery curve, for every `(A : C)` with
 `A² ≠ 4C²`. -/
